@@ -582,6 +582,8 @@ class Lower:
         q = self.ast.qname(tgt)
         if not q.startswith('Pistache'):
             return
+        if any(q.startswith(p) for p in getattr(self.u, 'ASSUME_PISTACHE', [])) or any(q.startswith(p) for p in getattr(self.u, 'ASSUME_PURE', [])):
+            return                  # the unit treats this callee as an assumed external (default rule)
         c = self.ast.canon(tgt['id'])
         for n in self.ast.functions():
             if has_body(n) and (self.ast.canon(n['id']) == c or (self.ast.qname(n) == q and self.qt(n) == self.qt(tgt))):
